@@ -39,6 +39,12 @@ CHECKS = {
 CHECKS["C18"] = dict(cat="exploration", tech="exhaustive enumeration of every single edit (add/delete/rename service; six attribute edits of every parameter of every request/response) of every base database, applied to the ODX XML; metamorphic classification of the comparison tool's report against an independent XML-level reference",
    text="Every (database x edit kind x target) combination over somersault and three generated databases is materialised as real ODX files, loaded twice through the real loader and compared in both roles with compare_databases / compare_diagnostic_layers; the report must contain exactly that kind of change for exactly that service, self-comparison must be empty, and print_dl_metrics must show the independently counted numbers of services, DOPs and communication parameters.",
    note="Trusted: odxmodel/refcompare.py (XML-level reference of inheritance, prefixes, counts) and the edit alphabet. Combined edits are outside the bound (single edits only).", ref="5/C18")
+CHECKS["C14"] = dict(cat="model_checking", tech="exhaustive enumeration of candidate lists x all deterministic ECU response functions x cache on/off, the generator-based matcher driven as a state machine (each yielded request is a scheduling point answered by the enumerated ECU), reference first-match evaluator",
+   text="A pool of candidate layers (0..2 patterns, 1..2 matching parameters, 5 response layouts x 5 DOP types, own identification services, base and ECU variants) is loaded once through the real loader; every candidate list up to length 2-4 is run against every function from identification requests to {value 1, value 2, negative response, undecodable bytes} with and without cache on a fresh VariantMatcher; verdict, has_match/matching_variant consistency, cache independence, request discipline are compared with the reference.",
+   note="Trusted: odxmodel/refmatcher.py. Request order and the number of requests without cache are not judged. Lists longer than 4 are outside the bound.", ref="5/C14")
+CHECKS["C10"] = dict(cat="exploration", tech="exhaustive enumeration of reference scenarios (reference kind x addressing form x target situation x document order), one small database per scenario loaded through the real loader, marker-based resolution model",
+   text="43 ODXLINK reference kinds x 10 addressing forms x every subset of defining/importing layers x document orders, layer/comparam-document references, and 14 SNREF kinds x owner x defining-layer subsets x NOT-INHERITED flags incl. retarget_snrefs: the resolved attribute must carry the marker the reference model predicts, or strict-mode loading must fail where it says so (three-valued).",
+   note="Trusted: odxmodel/reflinks.py (fragment and import semantics as adjudicated in DESIGN.md 5/C10). Duplicate IDs inside one deciding fragment and SNREFs into imported layers are DON'T-CARE.", ref="5/C10")
 NOT_BUILT_REASON = "check not built yet in this revision of /verif (design in DESIGN.md section 5); not claimed"
 
 def main():
